@@ -66,20 +66,18 @@ impl FileLocation {
         working_directory: Option<&path::Path>,
         default_extension: &str,
     ) -> path::PathBuf {
-        let mut path: path::PathBuf = match self.area {
-            None => match working_directory {
-                None => Default::default(),
-                Some(working_directory) => working_directory.into(),
-            },
-            Some(_) => {
-                // TODO: support file areas.
-                // Probably we just need to extend the vm::FileSystem trait to accept areas.
-                // Then in production TeX engines, we provide a map of areas to base path for
-                // that area. There is still an error case when an undefined area is referenced.
-                panic!("Texlang does not have support for file areas yet");
-            }
+        let mut path: path::PathBuf = match working_directory {
+            None => Default::default(),
+            Some(working_directory) => working_directory.into(),
         };
-        path.push(std::ffi::OsString::from(&self.path));
+        // TODO: support file areas.
+        // Probably we just need to extend the vm::FileSystem trait to accept areas.
+        // Then in production TeX engines, we provide a map of areas to base path for
+        // that area. There is still an error case when an undefined area is referenced.
+        // For the moment the area is kept as the leading part of the file name.
+        let mut file_name = self.area.clone().unwrap_or_default();
+        file_name.push_str(&self.path);
+        path.push(std::ffi::OsString::from(&file_name));
         path.set_extension(std::ffi::OsString::from(
             self.extension.as_deref().unwrap_or(default_extension),
         ));
